@@ -15,6 +15,7 @@ import (
 	"github.com/tink-crypto/tink-go/v2/daead"
 	daeadsubtle "github.com/tink-crypto/tink-go/v2/daead/subtle"
 	"github.com/tink-crypto/tink-go/v2/hybrid"
+	hybridsubtle "github.com/tink-crypto/tink-go/v2/hybrid/subtle"
 	"github.com/tink-crypto/tink-go/v2/insecurecleartextkeyset"
 	"github.com/tink-crypto/tink-go/v2/insecuresecretdataaccess"
 	"github.com/tink-crypto/tink-go/v2/internal/protoserialization"
@@ -26,9 +27,13 @@ import (
 	"github.com/tink-crypto/tink-go/v2/mac"
 	macsubtle "github.com/tink-crypto/tink-go/v2/mac/subtle"
 	"github.com/tink-crypto/tink-go/v2/prf"
+	"github.com/tink-crypto/tink-go/v2/prf/hkdfprf"
 	prfsubtle "github.com/tink-crypto/tink-go/v2/prf/subtle"
 	"github.com/tink-crypto/tink-go/v2/secretdata"
 	"github.com/tink-crypto/tink-go/v2/signature"
+	"github.com/tink-crypto/tink-go/v2/signature/compositemldsa"
+	"github.com/tink-crypto/tink-go/v2/signature/mldsa"
+	"github.com/tink-crypto/tink-go/v2/signature/slhdsa"
 	"github.com/tink-crypto/tink-go/v2/streamingaead"
 	streamsubtle "github.com/tink-crypto/tink-go/v2/streamingaead/subtle"
 	"github.com/tink-crypto/tink-go/v2/tink"
@@ -131,6 +136,11 @@ type tmpl struct {
 	class string
 	name  string
 	t     func() *tinkpb.KeyTemplate
+	p     func() (key.Parameters, error) // alternative to t
+}
+
+func hkdfSaltParams() (key.Parameters, error) {
+	return hkdfprf.NewParameters(32, hkdfprf.SHA256, []byte("c19 salt bytes"))
 }
 
 func legacyOf(t func() *tinkpb.KeyTemplate) func() *tinkpb.KeyTemplate {
@@ -142,45 +152,53 @@ func legacyOf(t func() *tinkpb.KeyTemplate) func() *tinkpb.KeyTemplate {
 }
 
 var templates = []tmpl{
-	{"aead", "AES128GCM", aead.AES128GCMKeyTemplate},
-	{"aead", "AES256GCMNoPrefix", aead.AES256GCMNoPrefixKeyTemplate},
-	{"aead", "AES128CTRHMACSHA256", aead.AES128CTRHMACSHA256KeyTemplate},
-	{"aead", "AES256CTRHMACSHA256", aead.AES256CTRHMACSHA256KeyTemplate},
-	{"aead", "ChaCha20Poly1305", aead.ChaCha20Poly1305KeyTemplate},
-	{"aead", "XChaCha20Poly1305", aead.XChaCha20Poly1305KeyTemplate},
-	{"aead", "AES128GCMSIV", aead.AES128GCMSIVKeyTemplate},
-	{"aead", "AES256GCMSIVNoPrefix", aead.AES256GCMSIVNoPrefixKeyTemplate},
-	{"aead", "XAES256GCM192", aead.XAES256GCM192BitNonceKeyTemplate},
-	{"aead", "XAES256GCM160NoPrefix", aead.XAES256GCM160BitNonceNoPrefixKeyTemplate},
-	{"aead", "AES128GCM-LEGACY", legacyOf(aead.AES128GCMKeyTemplate)},
-	{"daead", "AESSIV", daead.AESSIVKeyTemplate},
-	{"daead", "AESSIV-LEGACY", legacyOf(daead.AESSIVKeyTemplate)},
-	{"mac", "HMACSHA256Tag128", mac.HMACSHA256Tag128KeyTemplate},
-	{"mac", "HMACSHA512Tag512", mac.HMACSHA512Tag512KeyTemplate},
-	{"mac", "AESCMACTag128", mac.AESCMACTag128KeyTemplate},
-	{"mac", "HMACSHA256Tag128-LEGACY", legacyOf(mac.HMACSHA256Tag128KeyTemplate)},
-	{"mac", "AESCMACTag128-LEGACY", legacyOf(mac.AESCMACTag128KeyTemplate)},
-	{"prf", "HMACSHA256PRF", prf.HMACSHA256PRFKeyTemplate},
-	{"prf", "HKDFSHA256PRF", prf.HKDFSHA256PRFKeyTemplate},
-	{"prf", "AESCMACPRF", prf.AESCMACPRFKeyTemplate},
-	{"sig", "ECDSAP256", signature.ECDSAP256KeyTemplate},
-	{"sig", "ECDSAP256Raw", signature.ECDSAP256RawKeyTemplate},
-	{"sig", "ECDSAP384SHA512", signature.ECDSAP384SHA512KeyTemplate},
-	{"sig", "ECDSAP521NoPrefix", signature.ECDSAP521KeyWithoutPrefixTemplate},
-	{"sig", "ED25519", signature.ED25519KeyTemplate},
-	{"sig", "ED25519NoPrefix", signature.ED25519KeyWithoutPrefixTemplate},
-	{"sig", "ECDSAP256-LEGACY", legacyOf(signature.ECDSAP256KeyTemplate)},
-	{"sig", "ED25519-LEGACY", legacyOf(signature.ED25519KeyTemplate)},
-	{"hyb", "HPKE-X25519-AES128GCM", hybrid.DHKEM_X25519_HKDF_SHA256_HKDF_SHA256_AES_128_GCM_Key_Template},
-	{"hyb", "HPKE-X25519-CHACHA-Raw", hybrid.DHKEM_X25519_HKDF_SHA256_HKDF_SHA256_CHACHA20_POLY1305_Raw_Key_Template},
-	{"hyb", "HPKE-P256-AES256GCM", hybrid.DHKEM_P256_HKDF_SHA256_HKDF_SHA256_AES_256_GCM_Key_Template},
-	{"hyb", "ECIES-AES128GCM", hybrid.ECIESHKDFAES128GCMKeyTemplate},
-	{"hyb", "ECIES-AES128CTRHMAC", hybrid.ECIESHKDFAES128CTRHMACSHA256KeyTemplate},
-	{"stream", "AES128GCMHKDF4KB", streamingaead.AES128GCMHKDF4KBKeyTemplate},
-	{"stream", "AES128CTRHMACSHA256Segment4KB", streamingaead.AES128CTRHMACSHA256Segment4KBKeyTemplate},
-	{"jwtmac", "HS256", jwt.HS256Template},
-	{"jwtsig", "ES256", jwt.ES256Template},
-	{"jwtsig", "RawES384", jwt.RawES384Template},
+	{class: "aead", name: "AES128GCM", t: aead.AES128GCMKeyTemplate},
+	{class: "aead", name: "AES256GCMNoPrefix", t: aead.AES256GCMNoPrefixKeyTemplate},
+	{class: "aead", name: "AES128CTRHMACSHA256", t: aead.AES128CTRHMACSHA256KeyTemplate},
+	{class: "aead", name: "AES256CTRHMACSHA256", t: aead.AES256CTRHMACSHA256KeyTemplate},
+	{class: "aead", name: "ChaCha20Poly1305", t: aead.ChaCha20Poly1305KeyTemplate},
+	{class: "aead", name: "XChaCha20Poly1305", t: aead.XChaCha20Poly1305KeyTemplate},
+	{class: "aead", name: "AES128GCMSIV", t: aead.AES128GCMSIVKeyTemplate},
+	{class: "aead", name: "AES256GCMSIVNoPrefix", t: aead.AES256GCMSIVNoPrefixKeyTemplate},
+	{class: "aead", name: "XAES256GCM192", t: aead.XAES256GCM192BitNonceKeyTemplate},
+	{class: "aead", name: "XAES256GCM160NoPrefix", t: aead.XAES256GCM160BitNonceNoPrefixKeyTemplate},
+	{class: "aead", name: "AES128GCM-LEGACY", t: legacyOf(aead.AES128GCMKeyTemplate)},
+	{class: "daead", name: "AESSIV", t: daead.AESSIVKeyTemplate},
+	{class: "daead", name: "AESSIV-LEGACY", t: legacyOf(daead.AESSIVKeyTemplate)},
+	{class: "mac", name: "HMACSHA256Tag128", t: mac.HMACSHA256Tag128KeyTemplate},
+	{class: "mac", name: "HMACSHA512Tag512", t: mac.HMACSHA512Tag512KeyTemplate},
+	{class: "mac", name: "AESCMACTag128", t: mac.AESCMACTag128KeyTemplate},
+	{class: "mac", name: "HMACSHA256Tag128-LEGACY", t: legacyOf(mac.HMACSHA256Tag128KeyTemplate)},
+	{class: "mac", name: "AESCMACTag128-LEGACY", t: legacyOf(mac.AESCMACTag128KeyTemplate)},
+	{class: "prf", name: "HMACSHA256PRF", t: prf.HMACSHA256PRFKeyTemplate},
+	{class: "prf", name: "HKDFSHA256PRF", t: prf.HKDFSHA256PRFKeyTemplate},
+	{class: "prf", name: "AESCMACPRF", t: prf.AESCMACPRFKeyTemplate},
+	{class: "sig", name: "ECDSAP256", t: signature.ECDSAP256KeyTemplate},
+	{class: "sig", name: "ECDSAP256Raw", t: signature.ECDSAP256RawKeyTemplate},
+	{class: "sig", name: "ECDSAP384SHA512", t: signature.ECDSAP384SHA512KeyTemplate},
+	{class: "sig", name: "ECDSAP521NoPrefix", t: signature.ECDSAP521KeyWithoutPrefixTemplate},
+	{class: "sig", name: "ED25519", t: signature.ED25519KeyTemplate},
+	{class: "sig", name: "ED25519NoPrefix", t: signature.ED25519KeyWithoutPrefixTemplate},
+	{class: "sig", name: "ECDSAP256-LEGACY", t: legacyOf(signature.ECDSAP256KeyTemplate)},
+	{class: "sig", name: "ED25519-LEGACY", t: legacyOf(signature.ED25519KeyTemplate)},
+	{class: "hyb", name: "HPKE-X25519-AES128GCM", t: hybrid.DHKEM_X25519_HKDF_SHA256_HKDF_SHA256_AES_128_GCM_Key_Template},
+	{class: "hyb", name: "HPKE-X25519-CHACHA-Raw", t: hybrid.DHKEM_X25519_HKDF_SHA256_HKDF_SHA256_CHACHA20_POLY1305_Raw_Key_Template},
+	{class: "hyb", name: "HPKE-P256-AES256GCM", t: hybrid.DHKEM_P256_HKDF_SHA256_HKDF_SHA256_AES_256_GCM_Key_Template},
+	{class: "hyb", name: "ECIES-AES128GCM", t: hybrid.ECIESHKDFAES128GCMKeyTemplate},
+	{class: "hyb", name: "ECIES-AES128CTRHMAC", t: hybrid.ECIESHKDFAES128CTRHMACSHA256KeyTemplate},
+	{class: "stream", name: "AES128GCMHKDF4KB", t: streamingaead.AES128GCMHKDF4KBKeyTemplate},
+	{class: "stream", name: "AES128CTRHMACSHA256Segment4KB", t: streamingaead.AES128CTRHMACSHA256Segment4KBKeyTemplate},
+	{class: "jwtmac", name: "HS256", t: jwt.HS256Template},
+	{class: "jwtsig", name: "ES256", t: jwt.ES256Template},
+	{class: "jwtsig", name: "RawES384", t: jwt.RawES384Template},
+	{class: "prf", name: "HKDFSHA256PRF-salt", p: hkdfSaltParams},
+	{class: "sig", name: "MLDSA65", p: func() (key.Parameters, error) { return mldsa.NewParameters(mldsa.MLDSA65, mldsa.VariantTink) }},
+	{class: "sig", name: "SLHDSA-SHA2-128s", p: func() (key.Parameters, error) {
+		return slhdsa.NewParameters(slhdsa.SHA2, 64, slhdsa.SmallSignature, slhdsa.VariantTink)
+	}},
+	{class: "sig", name: "CompositeMLDSA65-Ed25519", p: func() (key.Parameters, error) {
+		return compositemldsa.NewParameters(compositemldsa.Ed25519, compositemldsa.MLDSA65, compositemldsa.VariantTink)
+	}},
 }
 
 var (
@@ -196,7 +214,22 @@ func handleFor(t tmpl) *keyset.Handle {
 	}
 	var h *keyset.Handle
 	var err error
-	hx.RealRand(func() { h, err = keyset.NewHandle(t.t()) })
+	hx.RealRand(func() {
+		if t.p != nil {
+			var ps key.Parameters
+			if ps, err = t.p(); err == nil {
+				km := keyset.NewManager()
+				var id uint32
+				if id, err = km.AddNewKeyFromParameters(ps); err == nil {
+					if err = km.SetPrimary(id); err == nil {
+						h, err = km.Handle()
+					}
+				}
+			}
+			return
+		}
+		h, err = keyset.NewHandle(t.t())
+	})
 	if err != nil {
 		panic(fmt.Sprintf("template %s: %v", t.name, err))
 	}
@@ -627,6 +660,51 @@ func ctors() []ctor {
 				return c
 			}, nil
 		}, []int{16}},
+		{"prf/hkdfprf.NewParameters(salt)", func(in [][]byte) (func() []byte, error) {
+			p, err := hkdfprf.NewParameters(32, hkdfprf.SHA256, in[0])
+			if err != nil {
+				return nil, err
+			}
+			return func() []byte { return p.Salt() }, nil
+		}, []int{12}},
+		{"hybrid/subtle.NewECIESAEADHKDFHybridEncrypt(salt)", func(in [][]byte) (func() []byte, error) {
+			// the salt reaches the HKDF only through Encrypt; fingerprint via a
+			// decrypt with a recipient built from a pristine copy of the salt
+			pristine := bytes.Clone(in[0])
+			curve, _ := hybridsubtle.GetCurve("NIST_P256")
+			var pvt *hybridsubtle.ECPrivateKey
+			var err error
+			hx.RealRand(func() { pvt, err = hybridsubtle.GenerateECDHKeyPair(curve) })
+			if err != nil {
+				return nil, err
+			}
+			dem := &c19Dem{}
+			e, err := hybridsubtle.NewECIESAEADHKDFHybridEncrypt(&pvt.PublicKey, in[0], "SHA256", "UNCOMPRESSED", dem)
+			if err != nil {
+				return nil, err
+			}
+			d, err := hybridsubtle.NewECIESAEADHKDFHybridDecrypt(pvt, pristine, "SHA256", "UNCOMPRESSED", dem)
+			if err != nil {
+				return nil, err
+			}
+			return func() []byte {
+				var out []byte
+				hx.RealRand(func() {
+					ct, err := e.Encrypt(fixedMsg, nil)
+					if err != nil {
+						out = []byte("encrypt error")
+						return
+					}
+					pt, err := d.Decrypt(ct, nil)
+					if err != nil {
+						out = []byte("decrypt error")
+						return
+					}
+					out = pt
+				})
+				return out
+			}, nil
+		}, []int{9}},
 		{"secretdata.NewBytesFromData", func(in [][]byte) (func() []byte, error) {
 			b := secretdata.NewBytesFromData(in[0], insecuresecretdataaccess.Token{})
 			return func() []byte { return b.Data(insecuresecretdataaccess.Token{}) }, nil
@@ -662,8 +740,9 @@ func opCtor(name string, r *hx.Rng) string {
 			v.add("%s keeps a reference to the caller's byte slice: results changed after the caller modified its buffer", c.name)
 		}
 		// a returned value must not be internal memory either
+		keep := bytes.Clone(after)
 		flip(after)
-		if again := fp(); !bytes.Equal(again, before) {
+		if again := fp(); !bytes.Equal(again, keep) {
 			v.add("%s: mutating a returned value changed a later result", c.name)
 		}
 		return v.result()
@@ -866,7 +945,9 @@ type stubKM struct {
 	make func(k []byte) any
 }
 
-func (m *stubKM) Primitive(serializedKey []byte) (any, error) { return m.make(bytes.Clone(serializedKey)), nil }
+func (m *stubKM) Primitive(serializedKey []byte) (any, error) {
+	return m.make(bytes.Clone(serializedKey)), nil
+}
 func (m *stubKM) NewKey(serializedKeyFormat []byte) (proto.Message, error) {
 	return nil, fmt.Errorf("not supported")
 }
@@ -979,6 +1060,14 @@ func opDerive(r *hx.Rng) string {
 		}
 	})
 	return v.result()
+}
+
+// c19Dem is a DEM helper for the ECIES subtle constructors (AES-128-GCM).
+type c19Dem struct{}
+
+func (*c19Dem) GetSymmetricKeySize() uint32 { return 16 }
+func (*c19Dem) GetAEADOrDAEAD(k []byte) (any, error) {
+	return aeadsubtle.NewAESGCM(k)
 }
 
 var _ key.Key
